@@ -220,3 +220,15 @@ if __name__ == "__main__":
     for c in sys.argv[1:] or ["default", "all"]:
         t = time.time()
         print(c, extract(c), "%.1fs" % (time.time() - t))
+
+
+_nhir = {}
+
+
+def nhir(f, name):
+    """normalized HIR (format_args decoded) of function `name` in Facts `f`"""
+    from . import hir
+    key = (id(f), name)
+    if key not in _nhir:
+        _nhir[key] = hir.normalize(f.fn(name)["hir"])
+    return _nhir[key]
